@@ -6,6 +6,7 @@ TypeOK / Frame / ViewSemantics; MC_TPS proves the ring laws, Div*Mul, constant e
 replayed on real UTPM objects; after each action all objects (shape, values as exact rationals, memory sharing) are
 compared with the spec state.
 """
+import sys, os
 from common import *
 import utpm_replay as U
 
@@ -20,6 +21,11 @@ def run(rep, tier, seed):
         dict(name="scal_D3P2", D=3, P=2, pool="PoolScal", acts="ActsArith", maxlen=1 if q else 2),
         dict(name="mat_D2", D=2, P=1, pool="PoolMat", acts="ActsArith", maxlen=1 if q else 2),
         dict(name="vec_D4", D=4, P=1, pool="PoolVec2", acts="ActsArith", maxlen=1),
+        # views and in-place operators (x op= view(x), x op= x.T)
+        dict(name="alias_D3", D=3, P=1, pool="PoolMat22", acts="ActsAlias", idx="IdxSmall", maxlen=2, maxobjs=5),
+        # the complex instance of the specification (Gaussian rationals): real and complex polynomials, arrays and scalars mixed
+        dict(name="complex_mix_P2", module="MC_CUTPM", D=2, P=2, pool="PoolCx1", acts="ActsArith", scal="ScalCx", maxlen=1),
+        dict(name="complex_bcast", module="MC_CUTPM", D=3, P=2, pool="PoolCx2", acts="ActsArith", scal="ScalCx", maxlen=1),
     ]
     if not q:
         configs += [
@@ -27,12 +33,16 @@ def run(rep, tier, seed):
             dict(name="bcast_D2P2_len2", D=2, P=2, pool="PoolBcast", acts="ActsArith", maxlen=2),
             dict(name="bcastP_D2P2_len2", D=2, P=2, pool="PoolBcastP", acts="ActsBin", maxlen=2, maxobjs=6),
             dict(name="vec_D5", D=5, P=1, pool="PoolVec2", acts="ActsArith", scal="ScalSet", maxlen=1),
+            dict(name="complex_len2", module="MC_CUTPM", D=2, P=1, pool="PoolCx1", acts="ActsArith", scal="ScalCx", maxlen=2, maxobjs=6),
             dict(name="vec_D2_sim_len4", D=2, P=1, pool="PoolVec2", acts="ActsArith", maxlen=4, maxobjs=7,
                  simulate=3000, depth=5),
         ]
     U.machine_check(rep, configs, "C02", variants=(0, 1) if q else (0, 1, 2))
+    import subprocess
+    if subprocess.run([sys.executable, os.path.join(VERIF, "tools", "gen_complex.py"), "--check"], stdout=subprocess.PIPE).returncode != 0:
+        raise Machinery("spec/CTPS.tla, CUTPMachine.tla, MC_CUTPM.tla are out of date: run tools/gen_complex.py")
     U.self_test(rep)
-    rep.assumptions += ["real-valued coefficients on a rational grid; complex operands are covered by C02's complex part (c02 complex cases) only through kinds of constants",
+    rep.assumptions += ["coefficients on a rational grid (Gaussian rationals in the complex instance)",
                         "floats compared with exact rationals: |v-q| <= 1e-11 + 1e-9|q|"]
     return rep.finish("one case = one maximal behaviour (action sequence of the UTPMachine spec) x operand-kind variant "
                       "(python int/float, numpy scalar, int/float arrays); non-trivial = at least one action; distinct by "
